@@ -273,10 +273,10 @@ func init() {
 		Expect: "R14.deadline-propagation", Key: "cmdPERSIST", Why: "PERSIST answers OK but the object still expires"})
 	mutant(&Mutant{Name: "sweeper-continues", Props: []string{"C14"}, File: fExpire,
 		Old: "\t\t\tif nano < o.Expires() {\n\t\t\t\treturn false\n\t\t\t}", New: "\t\t\tif nano < o.Expires() {\n\t\t\t\treturn true\n\t\t\t}\n\t\t\tif len(msgs) > 1000000 {\n\t\t\t\treturn false\n\t\t\t}",
-		Expect: "R14.sweep-stop", Key: "backgroundExpireObjects", Why: "the early stop is gone (not wrong by itself, but the rule pins the protocol)"})
+		Expect: "R14.sweep-stop", Key: "sweep-objects", Why: "the early stop is gone (not wrong by itself, but the rule pins the protocol)"})
 	mutant(&Mutant{Name: "sweeper-wrong-direction", Props: []string{"C14"}, File: fExpire,
 		Old: "\t\tif h.expires.After(now) {\n\t\t\treturn false\n\t\t}", New: "\t\tif now.After(h.expires) {\n\t\t\treturn false\n\t\t}",
-		Expect: "R14.sweep-stop", Key: "backgroundExpireHooks", Why: "hooks expire early and due hooks stay"})
+		Expect: "R14.sweep-stop", Key: "sweep-hooks", Why: "hooks expire early and due hooks stay"})
 	mutant(&Mutant{Name: "byexpires-id-first", Props: []string{"C14"}, File: fColl,
 		Old: "func byExpires(a, b *object.Object) bool {\n\tif a.Expires() < b.Expires() {", New: "func byExpires(a, b *object.Object) bool {\n\tif a.ID() < b.ID() {\n\t\treturn true\n\t}\n\tif a.Expires() < b.Expires() {",
 		Expect: "R14.sweep-stop", Key: "byExpires-deadline-first", Why: "the expiry index is no longer ordered by deadline"})
